@@ -34,6 +34,7 @@ def gen_program(rng, conflict=None):
                 known.add(t0)
         open_stack = {t: [] for t in types}
         paused = False
+        tstate = "run"
         for _ in range(rng.range(2, 18)):
             r = rng.below(100)
             t = rng.choice(sorted(types))
@@ -69,8 +70,13 @@ def gen_program(rng, conflict=None):
                 lines.append("label %d %d %s" % (t, v, lab.encode().hex()))
                 calls.append((th, ("label", t, v, lab)))
             elif r < 40:
-                lines.append("resume" if paused else "pause")
-                paused = not paused
+                # thread state changes: Running -p-> Paused -r-> Running, or through Cooling / Warming
+                # (the thread is active - and its marks shown - while running, cooling or warming)
+                nxt = {"run": [("pause", "paused"), ("cool", "cooling")], "cooling": [("pause", "paused")],
+                       "paused": [("resume", "run"), ("warm", "warming")], "warming": [("resume", "run")]}[tstate]
+                cmd, tstate = rng.choice(nxt)
+                lines.append(cmd)
+                paused = tstate != "run"
             else:
                 v = rng.range(1, 4) if not (conflict == "zero_value" and rng.chance(1, 4)) else 0
                 if conflict == "undefined_type" and rng.chance(1, 4):
@@ -96,7 +102,7 @@ def gen_program(rng, conflict=None):
                 else:
                     lines.append("set %d %d" % (t, v))
                     calls.append((th, ("set", t, v)))
-        if paused:
+        if tstate in ("paused", "warming"):
             lines.append("resume")
         lines.append("endthread")
     lines.append("endproc")
@@ -109,7 +115,8 @@ def run(chk):
     chk.assumptions = ["threads of the driver run one after the other (concurrency of the runtime is C11's subject)",
                        "events of undefined or mismatching types are written by the runtime and refused in emulation, as the property allows"]
     rng = chk.rng
-    drv = os.path.join(common.BUILD, "harness", "mark_drv-" + build.tree)
+    hsrc = os.path.join(common.VERIF, "harness", "mark_drv.c")
+    drv = os.path.join(common.BUILD, "harness", "mark_drv-%s-%s" % (build.tree, common.hashlib.md5(open(hsrc, "rb").read()).hexdigest()[:8]))
     if not os.path.exists(drv):
         common.cc_harness(drv, [os.path.join(common.VERIF, "harness", "mark_drv.c")], build,
                           extra=["-L" + build.libdir, "-lovni", "-lpthread", "-Wl,-rpath," + build.libdir])
@@ -191,7 +198,19 @@ def run(chk):
                 why = emucore.decide_views(s, r["rows"], emucore.py_spec(s)[1], with_marks(tables, s))
                 if why:
                     chk.violation("mark-views:" + key, why, {"script": progs[ix][1]})
-            if k in ("title", "chan_type", "label") and r["rc"] == 0 and conflict_present(s, k):
+            if r["rc"] == 0 and "thread.pcf" in r.get("files", {}):
+                want = expected_pcf(s)
+                for fn in ("thread.pcf", "cpu.pcf"):
+                    got = pcf_marks(r["files"].get(fn, ""))
+                    if want is not None and fn in r["files"] and got != want:
+                        chk.violation("mark-labels:" + key, "%s declares the mark types/labels %s, the threads registered %s" % (fn, got, want),
+                                      {"script": progs[ix][1]})
+                        break
+            for kk in ("title", "chan_type", "label"):
+                if r["rc"] == 0 and conflict_present(s, kk):
+                    chk.violation("accepts-conflict:" + key, "ovniemu accepts threads whose %s definitions conflict" % kk, {"script": progs[ix][1]})
+                    break
+            if False:
                 chk.violation("accepts-conflict:" + key, "ovniemu accepts threads whose %s definitions conflict" % k, {"script": progs[ix][1]})
             if m is not None:
                 dd = emucore.compare(s, r, m)
@@ -212,6 +231,20 @@ def run(chk):
                             "every call's ok/die is judged by the documented rules, rows 100+t and the PCF by an independent reconstruction, and everything is compared "
                             "with the extracted Coq model")
     emucheck.finish_corr(chk, corr)
+
+
+def expected_pcf(s):
+    """{type: (title, {value: label})} registered by the threads (union of the labels), None on a conflict"""
+    res = {}
+    for pos in sorted(s.marks):
+        for d in s.marks[pos]:
+            o = res.setdefault(d["type"], (d["title"], {}))
+            if o[0] != d["title"]:
+                return None
+            for v, l in d["labels"]:
+                if o[1].setdefault(v, l) != l:
+                    return None
+    return res
 
 
 def conflict_present(s, kind):
@@ -257,12 +290,10 @@ def mark_rows_ok(s, r, prog):
         for d in ds:
             stackty.setdefault(d["type"], d["stack"])
     for (p, clk, mcv, pl) in sorted(s.events, key=lambda e: e[1]):
-        if mcv == "OHx":
-            state[p] = True
+        if mcv in ("OHx", "OHr", "OHw"):
+            state[p] = True      # running and warming threads are active (cooling keeps it)
         elif mcv in ("OHp", "OHe"):
             state[p] = False
-        elif mcv == "OHr":
-            state[p] = True
         elif mcv[:2] == "OM":
             v, ty = struct.unpack("<qi", pl)
             st = cur.setdefault((p, ty), [])
